@@ -155,6 +155,8 @@ async def amain(spec: dict) -> dict:
             if spec.get('slow_plugin_s'):
                 await asyncio.sleep(spec['slow_plugin_s'])        # a slow plugin: the relay falls behind the child
             await self._ev('on_write_stdout', context, event)
+            if spec.get('stall_s') and event.text == spec.get('stall_on_text'):
+                await asyncio.sleep(spec['stall_s'])              # one hook call that is busy for seconds (a blocking callback)
 
         @hookimpl
         async def on_start_prompt(self, context: Any, event: Any) -> None:
